@@ -19,6 +19,9 @@ type selCert struct {
 	CN   string   `json:"cn"`
 	SANs []string `json:"sans"`
 	Bad  bool     `json:"bad"` // leaf that x509.ParseCertificate rejects
+	// chain variant (certs.go): 0 = the leaf alone, v = the same leaf followed by intermediate v-1. Selection
+	// does not look at it; what is presented does.
+	Chain int `json:"chain"`
 }
 
 type selIn struct {
@@ -61,7 +64,10 @@ func buildSet(cs []selCert) ([]tls.Certificate, error) {
 		if err != nil {
 			return nil, err
 		}
-		out = append(out, l)
+		if c.Chain < 0 || c.Chain > nChains {
+			return nil, fmt.Errorf("chain variant out of range")
+		}
+		out = append(out, withChain(l, c.Chain))
 	}
 	return out, nil
 }
@@ -171,6 +177,9 @@ func genSelCert(r *hx.Rand) selCert {
 	}
 	for n := r.Intn(4); n > 0; n-- {
 		c.SANs = append(c.SANs, genCertName(r))
+	}
+	if r.Chance(1, 4) {
+		c.Chain = r.Range(1, nChains)
 	}
 	return c
 }
